@@ -36,9 +36,14 @@ fn obs_name(obs: &mut Vec<Value>, part: &str, n: &Name) {
     obs.push(json!(["name.into_owned", part, [], total(|| n.clone().into_owned() == *n)]));
     obs.push(json!(["name.is_link_local", part, [], total(|| n.is_link_local())]));
     obs.push(json!(["name.is_subdomain_of", part, [], total(|| n.is_subdomain_of(n))]));
+    obs.push(json!(["name.without", part, [], total(|| n.without(n).is_none() && n.without(&Name::new_unchecked("")).map(|x| x.to_string()).is_some())]));
+    obs.push(json!(["name.iter+get_labels", part, [], total(|| n.iter().count() == n.get_labels().len())]));
+    obs.push(json!(["name.new_with_labels", part, [], total(|| Name::new_with_labels(n.get_labels()) == *n)]));
     for l in n.get_labels() {
         obs.push(json!(["label.display", part, bytes_json(l.verif_bytes()), total(|| format!("{}", l))]));
         obs.push(json!(["label.debug", part, [], total(|| format!("{:?}", l))]));
+        obs.push(json!(["label.len+is_empty+as_bytes", part, [], total(|| l.len() == l.as_bytes().len() && !l.is_empty())]));
+        obs.push(json!(["label.into_owned+hash", part, [], total(|| hash_of(&l.clone().into_owned()) == hash_of(l))]));
     }
 }
 
@@ -53,6 +58,7 @@ fn obs_cstr(obs: &mut Vec<Value>, part: &str, c: &CharacterString) {
 fn obs_rdata(obs: &mut Vec<Value>, part: &str, r: &RData) {
     obs.push(json!(["rdata.debug", part, [], total(|| format!("{:?}", r))]));
     obs.push(json!(["rdata.hash", part, [], total(|| hash_of(r))]));
+    obs.push(json!(["rdata.type_code", part, [], total(|| u16::from(r.type_code()))]));
     obs.push(json!(["rdata.clone_eq", part, [], total(|| r.clone() == *r)]));
     obs.push(json!(["rdata.into_owned", part, [], total(|| r.clone().into_owned() == *r)]));
     match r {
@@ -84,6 +90,10 @@ fn obs_rdata(obs: &mut Vec<Value>, part: &str, r: &RData) {
         }
         RData::SRV(s) => obs_name(obs, part, &s.target),
         RData::NSEC(n) => obs_name(obs, part, &n.next_name),
+        RData::SVCB(v) => {
+            obs.push(json!(["svcb.iter_params+get_param", part, [], total(|| v.iter_params().all(|(k, val)| v.get_param(k) == Some(val)))]));
+            obs_name(obs, part, &v.target);
+        }
         RData::NS(n) => obs_name(obs, part, &n.0),
         RData::CNAME(n) => obs_name(obs, part, &n.0),
         RData::PTR(n) => obs_name(obs, part, &n.0),
@@ -113,6 +123,8 @@ pub fn inspect_event(cls: &str, b: &[u8]) -> Option<Value> {
     let mut obs: Vec<Value> = vec![];
     obs.push(json!(["packet.debug", "packet", [], total(|| format!("{:?}", p))]));
     obs.push(json!(["packet.clone", "packet", [], total(|| p.clone().id())]));
+    obs.push(json!(["packet.accessors", "packet", [], total(|| (p.id(), p.rcode() == p.rcode(), p.opcode() == p.opcode(), p.opt().map(|o| o.opt_codes.len()), p.has_flags(simple_dns::PacketFlag::RESPONSE)))]));
+    obs.push(json!(["packet.into_reply", "packet", [], total(|| p.clone().into_reply().id() == p.id())]));
     obs.push(json!(["packet.into_owned_parts", "packet", [], total(|| {
         let q: Vec<_> = p.questions.iter().cloned().map(|q| q.into_owned()).collect();
         let a: Vec<_> = p.answers.iter().cloned().map(|r| r.into_owned()).collect();
